@@ -80,6 +80,16 @@ def _private_keys(desc, mat, n):
       w = 1 + mat.bits(32)
       reps = 2 + b % (bits // 32 - 1)
       d = sum(w << (32 * i) for i in range(reps)) ^ (1 << (40 + b % 60))
+    elif kind == 'cross':
+      # structured with respect to ANOTHER curve's order: i * (m^-1 mod n_A)^-1 mod n (a full-size scalar
+      # that a multiplier inverse taken modulo the wrong order would map to a small logarithm)
+      nA = eg.ref(eg.PRIME_CURVES[a % len(eg.PRIME_CURVES)]).n
+      m = (1 << (8 * (b % 24))) if b % 2 else sum(1 << (32 * i) for i in range(2 + b % 5))
+      if nA == n or m % nA == 0:
+        d = 1 + mat.below(n - 1)
+      else:
+        inv_a = pow(m, -1, nA)
+        d = (1 + mat.bits(32)) * pow(inv_a, -1, n) % n if inv_a % n else 1 + mat.below(n - 1)
     elif kind == 'near' and ds:
       d = ds[a % len(ds)] + [1, 2, -1, 4095, 4096, 4097, 100000][b % 7]
     elif kind == 'neg' and ds:
@@ -147,13 +157,13 @@ def run_ec_keys(desc):
 
 def strat_ec_keys(tier):
   spec = st.tuples(st.sampled_from(['small', 'shift', 'shift_near', 'repeat', 'repeat_near', 'near',
-                                    'neg', 'same', 'random']),
+                                    'neg', 'same', 'random', 'cross', 'cross']),
                    st.integers(0, 10**6), st.integers(0, 10**6)).map(list)
   part = st.fixed_dictionaries({'curve': st.integers(0, 8), 'keys': st.lists(spec, min_size=1, max_size=4),
                                 'pad': st.sampled_from([0, 0, 1, 3])})
   return st.fixed_dictionaries({
       'm': material, 'parts': st.lists(part, min_size=1, max_size=2),
-      'check': st.sampled_from(['diff'] * 7 + ['weakkey', 'both']),
+      'check': st.sampled_from(['diff'] * 6 + ['weakkey', 'weakkey', 'both']),
       'maxdiff_log': st.sampled_from([1, 4, 12, 12]), 'shuffle': st.booleans()})
 
 
